@@ -179,6 +179,11 @@ def specs(tier):
         for t in ("[0.3, 0.30000004]", "linspace(0.3, 0.30000006, 3)"):
             out.append(("1", "4", t, cart, 2))
             out.append(("4", "5", t, cart, 2))
+    # radial grids with hundreds of shells on tiny angular grids (anything that treats the shell count as a small number breaks here)
+    for t in ("linspace(0.1, 4, 257)", "range(1, 301)", "linspace(0.05, 3, 300)"):
+        for b, o in (("1", "2"), ("2", "3"), ("1", "4")):
+            out.append((b, o, t, False, 2))
+    out.append(("1", "4", "linspace(0.1, 4, 257)", True, 2))
     # direction grids large enough for bounded Cartesian cells
     for o in ("ico_6", "cube3D_8", "ico_12", "randomS_9", "ico_20", "cube3D_26"):
         for cart in (False, True):
